@@ -379,7 +379,7 @@ pub fn gen_instance(rng: &mut Rng, o: &GenOpts) -> InstSpec {
             let kind = *rng.pick(&[1, 2, 3, 3]);
             let bound = match kind {
                 1 => *rng.pick(&[None, Some((0.0, 1.0)), Some((0.0, 1.0))]),
-                _ => *rng.pick(&[None, Some((-2.0, 2.0)), Some((0.0, 1.0)), Some((f64::NEG_INFINITY, f64::INFINITY)), Some((0.0, f64::INFINITY)), Some((-3.0, 2.5)), Some((f64::NEG_INFINITY, 1.0))]),
+                _ => *rng.pick(&[None, Some((-2.0, 2.0)), Some((0.0, 1.0)), Some((f64::NEG_INFINITY, f64::INFINITY)), Some((0.0, f64::INFINITY)), Some((-3.0, 2.5)), Some((f64::NEG_INFINITY, 1.0)), Some((0.0, -0.0)), Some((1.0, 1.0)), Some((-0.0, 2.0))]),
             };
             let meta = if rng.chance(1, 3) {
                 let (_, subs, params, desc) = gen_meta(rng);
